@@ -12,16 +12,21 @@ RULE = ("per (c_string_type/c_string_encoding configuration, C type from a catal
         "substituted at every position, missing/extra/duplicated struct and union keys, arrays/pairs/ctuples of every "
         "wrong length; passed through `cdef T x = o; return x` compiled as C++ by the compiler under test; distinct by "
         "(configuration, type, input value)")
-EXPLANATION = ("theorems (all values, all types of the grammar incl. arbitrary nesting, all element converters obeying the "
-               "element law): C->Python->C is the identity on well-formed C values (sets/maps up to the order-free "
-               "representation), every successful from_py yields a well-formed value (ranges, exact array length, "
-               "distinct set elements / map keys), Python->C->Python is idempotent; the first failing element in "
-               "iteration order decides the error of every container loop and no value is returned; struct: ValueError "
-               "iff a member key is missing, extra keys are ignored (refutation of 'wrong keys raise'); array: Ok iff the "
-               "iterable has exactly n items; std::string is length based (NUL safe), char* truncates at the first NUL "
-               "(refuted + exact on NUL-free strings). partial: the UTF-8 codec law (decode then encode = identity) is a "
-               "hypothesis of the string theorems (CPython's codec; ASCII is proved), scalar ints are the range check "
-               "proved equal to the real helper in C05, doubles are opaque bit patterns, unions only tested.")
+EXPLANATION = ("theorems, for ALL element converter pairs obeying the element law `toX x = Ok v -> fromX v = Ok x` and all "
+               "values: C->Python->C is the identity for vector/std::list (order kept), set/unordered_set and "
+               "map/unordered_map (order-free duplicate-free representation), pair, C array; lifted by induction on the "
+               "type structure to every nested type of the grammar incl. struct-from-dict and ctuple "
+               "(C33_nested_roundtrip, on well-formed C values); the first failing element in iteration order (key before "
+               "value for maps, first before second for pairs) decides the error of every container loop and nothing is "
+               "returned; set results hold only converted items; C array: a value is produced only from exactly n items, "
+               "any other length raises; struct: ValueError whenever a member key is missing, only member keys matter "
+               "(refutation of 'wrong keys raise' for extra keys); std::string is length based and NUL safe, char* is exact "
+               "on NUL-free strings and cut at the first NUL otherwise (refuted); map from a non-dict raises AttributeError "
+               "(refuted). partial: the text codec law (decode then encode = identity) is a hypothesis of the str-typed "
+               "string theorems (proved for ASCII, CPython's UTF-8 codec only compared on every run); NOT proved: "
+               "well-formedness of every from_py result / Python->C->Python idempotence (tested only); scalar ints are the "
+               "range check that C05 proves equal to the real helper; doubles are opaque bit patterns; unions, error "
+               "messages and the evaluation order inside to_py are only tested.")
 TRUSTED = ["g++/libstdc++ as a conforming C++ implementation (std::set/map insert keeps the first of equal keys)",
            "CPython's UTF-8 / ASCII / Latin-1 codecs (the model has its own strict UTF-8 codec, compared on every run)",
            "C05 for the scalar int helpers (modelled here as the range check)",
